@@ -253,6 +253,10 @@ def resolve_closure(facts, blocks, op, depth=8, outer=None, new_local=None):
     return None, None
 
 
+class _Unsupported(Exception):
+    pass
+
+
 class _LazyHead:
     """Hands out a fresh landing block (`goto loop head`) for every jump back to a synthetic loop."""
 
@@ -555,7 +559,7 @@ class Sugar:
         return True
 
     # -------------------------------------------------------------------------------- iterator pipelines
-    LAZY = {"map": "val", "filter": "ref", "filter_map": "val", "take_while": "ref", "map_while": "val", "inspect": "ref", "skip_while": "ref"}
+    LAZY = {"map": "val", "filter": "ref", "filter_map": "val", "take_while": "ref", "map_while": "val", "inspect": "ref", "skip_while": "ref", "flat_map": "val"}
     CONSUMERS = {"find": "ref", "find_map": "val", "any": "val", "all": "val", "for_each": "val", "position": "val", "try_for_each": "val"}
 
     def chain_of(self, op, depth=12):
@@ -618,25 +622,46 @@ class Sugar:
         def _landing():
             return B.block([], B.goto(real_head))
         head = _LazyHead(_landing)
+        outer_head = head
         end_bb = on_end()
         x = B.local(item_hint)
         # the chain of adaptor steps, built back to front
         steps = list(adaptors)
         v_final = B.local("?") if steps else x
 
-        def build(i, cur):
-            """entry block for steps[i:] given the current item in local `cur`"""
+        def build(i, cur, head=head):
+            """entry block for steps[i:] given the current item in local `cur`; `head`: where "next
+            item" continues (the innermost enclosing pull loop)"""
             if i == len(steps):
                 return on_item(cur, head)
             nm, clo, ct = steps[i]
             if nm == "map":
                 nxt_l = B.local("?")
-                nxt = build(i + 1, nxt_l)
+                nxt = build(i + 1, nxt_l, head)
                 return self.call_closure(B, clo, [M(cur)], P(nxt_l), nxt, dep, stack)
+            if nm == "flat_map":
+                # for each outer item the closure yields an iterator; its items flow on downstream and its
+                # end continues with the next outer item: a nested pull loop
+                if (head is not outer_head) or getattr(self, "_lazy_pull", False):
+                    raise _Unsupported("flat_map below another flat_map / in a lazily pulled pipeline")
+                it_l = B.local("?")
+                ph = B.block([], None)
+                entry = self.call_closure(B, clo, [M(cur)], P(it_l), ph, dep, stack)
+                # the closure's own blocks must be expanded first so that its pipeline is visible
+                inner = self.chain_of({"m": P(it_l)})
+                if inner is None:
+                    raise _Unsupported("the iterator produced by a flat_map closure is not a recognisable pipeline")
+                base2, adaptors2 = inner
+                if any(a[0] == "flat_map" for a in adaptors2):
+                    raise _Unsupported("nested flat_map")
+                bt2 = strip_ref(self.locals[base2["l"]].get("ty") or "?")
+                ih = self._pull(B, base2, adaptors2, lambda v, h2: build(i + 1, v, h2), lambda: head.new(), dep, stack, bt2)
+                self.blocks[ph]["term"] = B.goto(ih)
+                return entry
             if nm in ("filter", "take_while", "skip_while", "inspect"):
                 rr = B.local("&?")
                 c = B.local("bool" if nm != "inspect" else "()")
-                nxt = build(i + 1, cur)
+                nxt = build(i + 1, cur, head)
                 if nm == "inspect":
                     test = nxt
                 elif nm == "filter":
@@ -650,7 +675,7 @@ class Sugar:
             if nm in ("filter_map", "map_while"):
                 o = B.local("std::option::Option<?>")
                 nxt_l = B.local("?")
-                nxt = build(i + 1, nxt_l)
+                nxt = build(i + 1, nxt_l, head)
                 take = B.block([B.assign(P(nxt_l), B.use({"m": variant_payload(P(o), OPTION, "Some", 1, "?")}))], B.goto(nxt))
                 st = []
                 term = self._switch_enum(B, st, o, OPTION, "std::option::Option<?>", {0: head.new() if nm == "filter_map" else end_bb, 1: take})
@@ -671,6 +696,20 @@ class Sugar:
         return real_head
 
     def expand_iter(self, bi, dep, stack):
+        nb, nl, nw, no = len(self.blocks), len(self.locals), len(self.work), len(self.origin)
+        term0 = self.blocks[bi]["term"]
+        try:
+            return self._expand_iter(bi, dep, stack)
+        except _Unsupported:
+            del self.blocks[nb:]
+            del self.locals[nl:]
+            del self.work[nw:]
+            del self.origin[no:]
+            self.blocks[bi]["term"] = term0
+            self._lazy_pull = False
+            return False
+
+    def _expand_iter(self, bi, dep, stack):
         b = self.blocks[bi]
         t = b["term"]
         d = t.get("def") or ""
@@ -845,7 +884,11 @@ class Sugar:
             def on_item(v, head):
                 return B.block([B.assign(dest, B.agg(OPTION, "Some", 1, [M(v)]))], B.goto(cont))
             end = lambda: B.block([B.assign(dest, B.agg(OPTION, "None", 0, []))], B.goto(cont))
-            head = self._pull(B, base, adaptors, on_item, end, dep, stack, bt)
+            self._lazy_pull = True
+            try:
+                head = self._pull(B, base, adaptors, on_item, end, dep, stack, bt)
+            finally:
+                self._lazy_pull = False
             b["term"] = {"k": "goto", "t": head, "span": span, "sugar_site": t}
             self.expanded.append((bi, d))
             return True
